@@ -5,6 +5,11 @@ ROOT = os.path.dirname(os.path.dirname(os.path.abspath(__file__)))
 ALL = ["C%02d" % i for i in range(1, 21)]
 
 CHECKS = {
+ "C03": dict(
+   technique="TLA+ TypeRules spec: rule-local typing judgments for 14 rule classes enumerated over parameter spaces x 10 syntactic sites; every case rendered and compiled by the real front end, the well-typed members of each (rule, site) family being the controls",
+   category="exploration",
+   text="Exhaustive over the catalogue: 3914 cases (2859 ill-typed) covering mixed arithmetic over 6 numeric types x 4 operators, implicit narrowing incl. float-to-int, non-bool conditions / logical operands, argument count and type for functions, methods and closures, undefined / redeclared names, return values, optionals used as values, struct fields, fixed-array initialisers, calling a non-function, unhandled results (arity 0-2, 3 callee kinds, 4 uses), `!` from a non-result function; each at function, method, closure, if, else, while, for, match-arm, catch-handler and block sites.",
+   note="Rule-local: only the injected rule's premise is judged by the specification (DESIGN.md C03 fallback); comparisons between different numeric types and optional-vs-value comparisons are not demanded because the property does not name them."),
  "C04": dict(
    technique="TLA+ IndexScenario spec (Kind = fixed): event machine over literal / const / named-const / let / reassigned / branch-dependent / loop-carried / negated / opaque indices with the prescribed observation per value of an opaque parameter; TLC emits one scenario per transition of the abstract state graph; scenarios compiled and run by the real compiler (in-range scenarios batched)",
    category="model_checking",
